@@ -286,7 +286,7 @@ def r7_2_st_send(ctx, prog, rule="R7.2"):
                 removes.append((i, m.group(1).split("::")[-1]))
             m = re.search(r"StunAttributes::add::<(.*)>$", e[1])
             if m:
-                adds.append((i, m.group(1).split("::")[-1], C.expr_of(pa, e[2][1])))
+                adds.append((i, _added_kind(m.group(1).split("::")[-1], C.expr_of(pa, e[2][1])), _unwrap_conv(C.expr_of(pa, e[2][1]))))
         exp_adds = {"None": ["UserName", "MessageIntegrity", "MessageIntegritySha256"],
                     "MessageIntegrity": ["UserName", "MessageIntegrity"],
                     "MessageIntegritySha256": ["UserName", "MessageIntegritySha256"]}.get(d["cfg"])
@@ -533,7 +533,7 @@ def r8_1_decoration(ctx, prog, rule="R8.1"):
                     removes.append((i, m.group(1).split("::")[-1]))
                 m = re.search(r"StunAttributes::add::<(.*)>$", e[1])
                 if m:
-                    adds.append((i, m.group(1).split("::")[-1], C.expr_of(pa, e[2][1])))
+                    adds.append((i, _added_kind(m.group(1).split("::")[-1], C.expr_of(pa, e[2][1])), _unwrap_conv(C.expr_of(pa, e[2][1]))))
             ret = _ret_str(pa.ret)
             uh = pa.choice(r"^variant\(.*lt\.params.*user_hash\)$")
             pas = pa.choice(r"^variant\(.*lt\.params.*password_algorithms\)$")
@@ -650,6 +650,43 @@ def r8_2_dispatch(ctx, prog, rule="R8.2"):
                 why += "; Err propagated, writes %s" % w
         ctx.ob(rule, key, ok, why, info["where"], replay=None if ok else pa.describe())
     ctx.floor(rule, "recv_message classes", n, 6)
+
+
+def _unwrap_conv(val):
+    """the value without a leading conversion into StunAttribute (`X::into(v)`, `StunAttribute::from(v)`)"""
+    for _ in range(3):
+        if isinstance(val, tuple) and len(val) == 2 and isinstance(val[0], str) and \
+                (val[0].endswith("::into") or val[0] in ("StunAttribute::from", "From::from")):
+            val = val[1]
+        else:
+            break
+    return val
+
+
+def _added_kind(generic, val):
+    """which attribute `StunAttributes::add::<T>(v)` adds: T, or - when the caller converted first and T is StunAttribute
+    itself - the variant / source type the value was built from"""
+    if generic != "StunAttribute":
+        return generic
+    t = val
+    for _ in range(6):
+        if not (isinstance(t, tuple) and t and isinstance(t[0], str)):
+            break
+        head = t[0]
+        if head.startswith("StunAttribute::") and head not in ("StunAttribute::from", "StunAttribute::into"):
+            return head.split("::")[1]
+        if head.endswith("::into") and head.split("::")[0] not in ("T", "StunAttribute", "Into"):
+            return head.split("::")[0]
+        if head in ("StunAttribute::from", "T::into", "Into::into", "From::from") and len(t) > 1:
+            inner = t[1]
+            if isinstance(inner, tuple) and inner and isinstance(inner[0], str) and "::" in inner[0]:
+                k = inner[0].split("::")[0]
+                if k and k[0].isupper() and k not in ("Option", "Result"):
+                    return k
+            t = inner
+            continue
+        break
+    return generic
 
 
 def _explore_lt_fn(prog, fn, extra_step=(), models=()):
